@@ -55,6 +55,8 @@ pub enum Step {
     SetMinDelay { d: u32, by: usize, signed: bool },
     SetTrap { on: bool },
     Advance { n: u32 },
+    /// the external admin (actor 0) grants / revokes one of the three roles (0 proposer, 1 canceller, 2 executor)
+    Role { role: u8, account: usize, grant: bool, signed: bool },
 }
 #[derive(Clone, Debug, Serialize, Deserialize)]
 pub struct Cfg {
@@ -77,6 +79,8 @@ struct Model {
     min: u32,
     now: u32,
     trap: bool,
+    /// holders of the proposer / canceller / executor roles
+    roles: [std::collections::BTreeSet<usize>; 3],
 }
 impl Model {
     fn delay(&self, d: Delay) -> u32 {
@@ -95,6 +99,18 @@ impl Model {
                 self.trap = on;
                 true
             }
+            Step::Role { role, account, grant, signed } => {
+                if !signed {
+                    return false;
+                }
+                let set = &mut self.roles[role as usize];
+                if grant {
+                    set.insert(account);
+                    true
+                } else {
+                    set.remove(&account)
+                }
+            }
             Step::SetMinDelay { d, by, signed } => {
                 if !signed || by != 0 {
                     return false;
@@ -104,16 +120,18 @@ impl Model {
             }
             Step::Schedule { k, delay, by, signed } => {
                 let d = self.delay(delay);
-                if !signed || by != 1 || self.st[k] != S::Unset || d < self.min {
+                if !signed || !self.roles[0].contains(&by) || self.st[k] != S::Unset || d < self.min {
                     return false;
                 }
                 self.st[k] = S::Pending(self.now.saturating_add(d));
                 true
             }
             Step::Execute { k, by, signed } => {
-                if cfg.with_executors && (!signed || by != 2) {
+                // whenever any executor is configured, the caller must hold the role and authorize
+                if !self.roles[2].is_empty() && (!signed || !self.roles[2].contains(&by)) {
                     return false;
                 }
+                let _ = cfg;
                 let ready = matches!(self.st[k], S::Pending(r) if r <= self.now);
                 let pred_ok = match cfg.ops[k].1 {
                     Pred::None => true,
@@ -128,7 +146,7 @@ impl Model {
                 true
             }
             Step::Cancel { k, by, signed } => {
-                if !signed || by != 1 || !matches!(self.st[k], S::Pending(_)) {
+                if !signed || !self.roles[1].contains(&by) || !matches!(self.st[k], S::Pending(_)) {
                     return false;
                 }
                 self.st[k] = S::Unset;
@@ -188,20 +206,22 @@ impl Check for ControllerExt {
         }
         let cfg = Cfg { with_executors: rng.chance(60), start_ledger: 2 + rng.below(100_000) as u32, min_delay: match rng.below(4) { 0 => 0, 1 => 1, _ => 2 + rng.below(30) as u32 }, ops };
         let nsteps = if tier == Tier::Quick { 30 + rng.below(40) } else { 30 + rng.below(90) } as usize;
-        let mut m = Model { st: vec![S::Unset; nops], hits: vec![0; nops], min: cfg.min_delay, now: cfg.start_ledger, trap: false };
+        let mut m = Model { st: vec![S::Unset; nops], hits: vec![0; nops], min: cfg.min_delay, now: cfg.start_ledger, trap: false, roles: [[1usize].into_iter().collect(), [1usize].into_iter().collect(), if cfg.with_executors { [2usize].into_iter().collect() } else { Default::default() }] };
         let mut steps = vec![];
+        let role_changes = rng.chance(50);
         for _ in 0..nsteps {
             let k = rng.below(nops as u64) as usize;
             let s = match rng.below(100) {
-                0..=24 => Step::Schedule { k, delay: match rng.below(8) { 0 => Delay::Abs(0), 1 => Delay::MinPlus(-1), 2 => Delay::MinPlus(0), 3 => Delay::MinPlus(1), 4 => Delay::Abs(u32::MAX), 5 => Delay::Abs(1_000_000), _ => Delay::MinPlus(rng.below(6) as i64) }, by: if rng.chance(88) { 1 } else { rng.below(4) as usize }, signed: !rng.chance(6) },
+                0..=24 => Step::Schedule { k, delay: match rng.below(8) { 0 => Delay::Abs(0), 1 => Delay::MinPlus(-1), 2 => Delay::MinPlus(0), 3 => Delay::MinPlus(1), 4 => Delay::Abs(u32::MAX), 5 => Delay::Abs(1_000_000), _ => Delay::MinPlus(rng.below(6) as i64) }, by: if rng.chance(85) { m.roles[0].iter().next().cloned().unwrap_or(1) } else { rng.below(4) as usize }, signed: !rng.chance(6) },
                 25..=54 => {
                     // prefer ops that are pending
                     let pend: std::vec::Vec<usize> = (0..nops).filter(|i| matches!(m.st[*i], S::Pending(_))).collect();
-                    Step::Execute { k: if !pend.is_empty() && rng.chance(80) { *rng.pick(&pend) } else { k }, by: if rng.chance(85) { 2 } else { rng.below(4) as usize }, signed: !rng.chance(8) }
+                    Step::Execute { k: if !pend.is_empty() && rng.chance(80) { *rng.pick(&pend) } else { k }, by: if rng.chance(85) { m.roles[2].iter().next().cloned().unwrap_or(2) } else { rng.below(4) as usize }, signed: !rng.chance(8) }
                 }
-                55..=62 => Step::Cancel { k, by: if rng.chance(85) { 1 } else { rng.below(4) as usize }, signed: !rng.chance(8) },
+                55..=62 => Step::Cancel { k, by: if rng.chance(70) { m.roles[1].iter().next().cloned().unwrap_or(1) } else if rng.chance(50) { m.roles[0].iter().next().cloned().unwrap_or(1) } else { rng.below(4) as usize }, signed: !rng.chance(8) },
                 63..=68 => Step::SetMinDelay { d: match rng.below(4) { 0 => 0, 1 => u32::MAX, _ => rng.below(40) as u32 }, by: if rng.chance(85) { 0 } else { rng.below(4) as usize }, signed: !rng.chance(8) },
-                69..=73 => Step::SetTrap { on: rng.chance(50) },
+                69..=71 => Step::SetTrap { on: rng.chance(50) },
+                72..=76 if role_changes => Step::Role { role: rng.below(3) as u8, account: 1 + rng.below(3) as usize, grant: rng.chance(55), signed: !rng.chance(8) },
                 _ => {
                     let rs: std::vec::Vec<u32> = m.st.iter().filter_map(|s| if let S::Pending(r) = s { Some(*r) } else { None }).filter(|r| *r > m.now && *r < u32::MAX / 2).collect();
                     let n = if !rs.is_empty() && rng.chance(75) { (*rng.pick(&rs) + rng.below(2) as u32).saturating_sub(1).saturating_sub(m.now) } else { rng.below(4) as u32 };
@@ -258,7 +278,7 @@ impl Check for ControllerExt {
             ops.push(op);
             ids.push(hid);
         }
-        let mut m = Model { st: vec![S::Unset; nops], hits: vec![0; nops], min: cfg.min_delay, now: cfg.start_ledger, trap: false };
+        let mut m = Model { st: vec![S::Unset; nops], hits: vec![0; nops], min: cfg.min_delay, now: cfg.start_ledger, trap: false, roles: [[1usize].into_iter().collect(), [1usize].into_iter().collect(), if cfg.with_executors { [2usize].into_iter().collect() } else { Default::default() }] };
         for (i, s) in steps.iter().enumerate() {
             w.set_auth(&[]);
             let before = w.storage_digest(&[&id, &tgt]);
@@ -271,6 +291,14 @@ impl Check for ControllerExt {
                 Step::SetTrap { on } => {
                     tc.set_trap(on);
                     ("set_trap", true)
+                }
+                Step::Role { role, account, grant, signed } => {
+                    let sym = Symbol::new(e, ["proposer", "canceller", "executor"][*role as usize]);
+                    let f: &'static str = if *grant { "grant_role" } else { "revoke_role" };
+                    let args: Vec<Val> = (a(*account), sym, a(0)).into_val(e);
+                    if *signed { w.set_auth(&[(0, Inv::new(&id, f, args.clone()))]); }
+                    st.hit("collab.role_set_changed");
+                    ("role", e.try_invoke_contract::<Val, soroban_sdk::Error>(&id, &Symbol::new(e, f), args).map(|r| r.is_ok()).unwrap_or(false))
                 }
                 Step::SetMinDelay { d, by, signed } => {
                     if *signed { w.set_auth(&[(*by, Inv::new(&id, "update_delay", (*d,).into_val(e)))]); }
@@ -290,7 +318,7 @@ impl Check for ControllerExt {
                 }
                 Step::Execute { k, by, signed } => {
                     let o = &ops[*k];
-                    let ex = if cfg.with_executors || *signed { Some(a(*by)) } else { None };
+                    let ex = if !m.roles[2].is_empty() || *signed { Some(a(*by)) } else { None };
                     if *signed { w.set_auth(&[(*by, Inv::new(&id, "execute_op", (o.target.clone(), o.function.clone(), o.args.clone(), o.predecessor.clone(), o.salt.clone(), ex.clone()).into_val(e)))]); }
                     ("execute", c.try_execute_op(&o.target, &o.function, &o.args, &o.predecessor, &o.salt, &ex).is_ok())
                 }
@@ -299,6 +327,7 @@ impl Check for ControllerExt {
                     ("cancel", c.try_cancel_op(&ids[*k], &a(*by)).is_ok())
                 }
             };
+            let snap_roles = m.roles.clone();
             let exp = m.apply(s, cfg);
             if !matches!(s, Step::Advance { .. } | Step::SetTrap { .. }) {
                 st.tx(kind, got);
@@ -313,8 +342,10 @@ impl Check for ControllerExt {
                 // role / authorization reasons first (C09: scheduling needs the proposer, cancelling the canceller,
                 // executing - whenever executors are configured - the executor, each with that account's authorization)
                 let role_reason = match *s {
-                    Step::Schedule { by, signed, .. } | Step::Cancel { by, signed, .. } => !signed || by != 1,
-                    Step::Execute { by, signed, .. } => cfg.with_executors && (!signed || by != 2),
+                    Step::Schedule { by, signed, .. } => !signed || !snap_roles[0].contains(&by),
+                    Step::Cancel { by, signed, .. } => !signed || !snap_roles[1].contains(&by),
+                    Step::Execute { by, signed, .. } => !snap_roles[2].is_empty() && (!signed || !snap_roles[2].contains(&by)),
+                    Step::Role { signed, .. } => !signed,
                     Step::SetMinDelay { by, signed, .. } => !signed || by != 0,
                     _ => false,
                 };
